@@ -2,34 +2,57 @@ PROPS["C17"] = dict(
     pkg="p_blocks", hooks=[], level="exploration", design="DESIGN.md §4 C17",
     technique="model-based PBT (rapid) against a set model with a reopen-after-every-operation differential (a second allocator "
               "opened on a copy of the bytes is probed and compared with the model), bounded-exhaustive op lists on tiny "
-              "geometries, a sparse Buffer backend for gigabyte-sized segments, constructor grid over valid/invalid block sizes, memory-mapped-file backend with close + map again, "
+              "geometries (a second alphabet with Grow of the live buffer and reopens on more / fewer bytes), a sparse Buffer backend for "
+              "gigabyte-sized segments and for allocators of more than 2^24 blocks that start full (headers preset to the bytes the allocator "
+              "itself leaves in a full segment), constructor grid over valid/invalid block sizes, memory-mapped-file backend with close + map again, "
               "race-detector stress with an atomic owner table",
-    rule="case = (block size, segments, oversize bytes, fit, backend inmem|mmap, op list over Arrange / fill / Free(allocated | free | "
-         "out of range | negative) / drain / Block+stamp / Block out of range / Reopen-and-continue); exhaustive over a 11-op alphabet "
-         "for block sizes 1, 2 (4) with 1-3 segments to the depth in exhaustive_parts, rapid lists up to 300 ops for block sizes 1..1024 "
+    rule="case = (block size, segments, oversize bytes, fit, backend inmem|mmap|sparse, segments whose header is preset to full, op list over "
+         "Arrange / fill / Free(allocated | free | out of range | negative) / drain / Block+stamp / Block out of range / Reopen-and-continue "
+         "(on the same bytes; mmap: mapped again with size -1 or the explicit size; on the bytes followed by zero bytes up to one more byte or page, "
+         "the next segment boundary, a block past it, or 1-2 more segments - in memory a larger buffer, mmap: NewMMFile with the larger size, "
+         "which extends the file - where the old segments keep their state and added ones are empty; a size the constructor must refuse is only "
+         "probed) / probe of a prefix of the bytes (mmap: the file mapped with a smaller size; less than a segment or unfit: refused, else the "
+         "leading whole segments with their state) / Grow of Bytes() of the live allocator by the same size classes followed by more calls on "
+         "the SAME allocator (its Count may stay or follow the buffer; every later reopen probe uses the geometry of the grown buffer)); "
+         "exhaustive over a 11-op alphabet "
+         "for block sizes 1, 2 (4) with 1-3 segments to the depth in exhaustive_parts, and over a 10-op alphabet with Grow(+1 byte | to the next "
+         "segment), reopen larger and prefix probe on 4 tiny geometries (one starting from preset-full headers); rapid lists up to 300 ops for block sizes 1..1024 "
          "with 1-3 segments, thorough tier also 2048/4096 on one segment; page-multiple block sizes 4096, 8192 and the non-power-of-two "
          "multiples 12288, 20480, 24576 (blocks per segment not a power of two) with 1-2 segments on a sparse buffer of the harness "
          "(only the blocks the allocator touches exist; Block() geometry on a sample of indexes and on every block a case touches), "
          "bulk arranges reaching block indexes up to ~70000 (and the whole first segment now and then), frees picked by index value "
-         "around byte, 2^15, 2^16 and segment boundaries, reopen probe on a copy of the materialised blocks; constructor cases = (block size valid or invalid, buffer size, fit); "
+         "around byte, 2^15, 2^16 and segment boundaries, reopen probe on a copy of the materialised blocks; unit huge: Count just below / above "
+         "2^24 and 2^25 (thorough 2^26) - 85..2051 page-multiple segments on the sparse buffer, or 2^20..2^21 segments of block size 1, 2 in real "
+         "memory - with all (or all but the last one or two) headers preset to full, 0-5 holes made by FreeBlock at 0, segment, 2^24, 2^25, "
+         "Count/2 and Count-1 (+-3) or anywhere, then up to 30 ops at the edge of exhaustion including Grow and the reopen kinds, plus a grid "
+         "(every sparse block size x threshold: last free block, ErrExhausted, frees at both ends and at the threshold, reopen, reopen adding a "
+         "segment, Grow, fill up); thorough tier also reaches the full state of 2^24+ blocks call by call (sparse 4096 x 513 segments, in memory "
+         "1 x 2^21+1); above 2^22 blocks the model is two bit sets, block geometry and the FreeBlock side of the reopen probe are sampled "
+         "(touched, recent and landmark indexes), the ArrangeBlock side stays exact; constructor cases = (block size valid or invalid, buffer size, fit); "
          "concurrent cases = (geometry, 2-8 goroutines, rounds, blocks held per goroutine); non-trivial = a freed index was handed out again "
          "while another segment holds allocated blocks, or a continuing reopen with >= 1 allocated block, or ArrangeBlock hit the full "
-         "allocator, or the constructor had to reject the geometry, or a concurrent case; distinct = FNV hash of the case. Excluded: "
-         "buffers that do not start from zero bytes other than through the allocator's own history, Grow, use after Close, block sizes "
+         "allocator, or the constructor had to reject the geometry, or ArrangeBlock succeeded after a Grow on the same allocator, or a reopen "
+         "on more bytes with >= 1 allocated block, or the last free block of more than 2^24 was handed out, or a concurrent case; distinct = FNV hash of the case. Excluded: "
+         "buffers that do not start from zero bytes other than through the allocator's own history or the preset full headers, Grow "
+         "concurrent with other calls, Grow to a non-multiple under fit on a file, use after Close, more than 2^27 blocks, block sizes "
          "between 32768 and 1 GiB; page multiples from 1 GiB up, whose segment size overflows an int64 so that no buffer can hold a "
          "segment, are tried on the constructor (grid and rapid) with small buffers only and must be rejected",
     assumptions=["set model written from the doc comments of Blocks (first block of a segment is its header, bs*8 user blocks per segment) and the C17 statement",
                  "valid block size = power of two below os.Getpagesize() (4096 here) or a multiple of it, as documented on Blocks.blkSize / GetBlocksInSegment",
                  "FreeBlock of a free in-range index is of class ErrNotExist and of an out-of-range index of class ErrInvalid (code comments; statement only says it fails)",
                  "the allocated set of a reopened allocator is recovered by probing (FreeBlock on every index, ArrangeBlock until exhausted), no assumption on the bit layout of the header",
+                 "preset headers: the header bytes of a full segment are taken from a one-segment allocator of the same block size that handed out all its blocks, and copied into the headers of other segments; this relies on the documented layout (each segment starts with its own header describing its bs*8 blocks) being position independent; the thorough tier reaches the same state call by call, and small geometries run every probe on preset states",
+                 "prefix probe: an allocator on the leading k whole segments of the bytes sees exactly the state of these segments (documented layout: the header is the first block of each segment)",
+                 "Grow: Buffer.Grow is documented without restriction, Blocks.Bytes() hands the buffer out and NewBlocks documents that the buffer may be larger than needed (fit=false), so growing the buffer of a live allocator is taken as supported; asserted afterwards is only what the statement says (results against the model, state recoverable from the bytes); the statement's first sentence does not name Grow (borderline)",
                  "the concurrent oracle is schedule independent (owner table, bounds on Available, quiescent state); a report of the race detector is attributed to the case through a subtest"],
     units=[
-        dict(name="exhaustive", run="^TestC17Exhaustive$", shards=(6, 11), timeout=(200, 1500)),
-        dict(name="rapid", run="^TestC17Rapid$", checks=(2500, 8000), shards=(4, 16), timeout=(200, 1500)),
+        dict(name="exhaustive", run="^TestC17Exhaustive$", shards=(8, 11), timeout=(200, 1500)),
+        dict(name="rapid", run="^TestC17Rapid$", checks=(2000, 8000), shards=(5, 16), timeout=(200, 1500)),
         dict(name="constructor", run="^TestC17Constructor$", checks=(5000, 50000), shards=(1, 4), timeout=(200, 600)),
         dict(name="mmap", run="^TestC17Mmap$", checks=(150, 600), shards=(2, 8), timeout=(200, 1500)),
         dict(name="concurrent", run="^TestC17Concurrent$", shards=(2, 16), timeout=(200, 1500), race=True),
         dict(name="sparse", run="^TestC17Sparse$", checks=(150, 1200), shards=(2, 8), timeout=(200, 1500)),
+        dict(name="huge", run="^TestC17Huge$", checks=(40, 300), shards=(2, 8), timeout=(200, 1500)),
         dict(name="big", run="^TestC17Big$", checks=(1, 12), shards=(1, 4), timeout=(200, 1500), enabled=(False, True)),
     ],
 )
@@ -37,8 +60,9 @@ PROPS["C17"] = dict(
 LEVEL_TEXT["C17"] = (
     "Generated-input search with an exact oracle: every op list over a 11-op alphabet up to a depth bound on 8- to 64-block "
     "allocators (every segment boundary and free-hint position), thousands of random long lists on block sizes up to 1024 "
-    "(4096 in the thorough tier) in memory and on memory-mapped files, and on block sizes of 1 to 6 pages with up to 70000 allocated "
-    "blocks on a sparse buffer, are compared call by call with a set model; after every "
+    "(4096 in the thorough tier) in memory and on memory-mapped files (reopened with the same, the explicit, a larger and a smaller mapping "
+    "size), on block sizes of 1 to 6 pages with up to 70000 allocated blocks on a sparse buffer, and on nearly full allocators of 2^24..2^25 "
+    "(2^26) blocks, with Grow of the live buffer as one of the operations, are compared call by call with a set model; after every "
     "operation a second allocator is opened on a copy of the bytes and its allocated set, recovered by probing, is compared with "
     "the model; block byte ranges are located by pointer arithmetic and checked against each other and the headers; the constructor "
     "is tried on a grid of valid and invalid geometries; 2-8 goroutines allocate and free under the race detector with an owner "
